@@ -161,7 +161,7 @@ func TestTotalJSON(t *testing.T) {
 		Rule: "protojson.Unmarshal over every linked message type (MessageSet users and hand-written implementations included) x DiscardUnknown x AllowPartial x RecursionLimit {default, 1..6}; input = descriptor-directed document | 1-3 token/byte mutations | token soup | random bytes; oracle: returns (value or error) without panicking. non-trivial = input longer than 8 bytes",
 		Draw: drawTotal("json"), Check: checkTotal, Classes: totalClasses,
 		NonTrivial: func(c totalCase) bool { return len(c.Input) > 8 },
-		Quick:      25000, Thorough: 300000, Journal: true,
+		Quick:      20000, Thorough: 200000, Journal: true,
 	})
 }
 
@@ -171,7 +171,7 @@ func TestTotalText(t *testing.T) {
 		Rule: "prototext.Unmarshal over every linked message type x DiscardUnknown x AllowPartial x RecursionLimit {default, 1..6}; input = descriptor-directed text document ({}/<>, optional colons, ,/; separators, comments, list syntax, string concatenation and escapes, hex/octal/float spellings, expanded Any, extensions, field-number names) | mutations with text-format hostile tokens | token soup | random bytes; oracle: no panic. non-trivial = input longer than 8 bytes",
 		Draw: drawTotal("text"), Check: checkTotal, Classes: totalClasses,
 		NonTrivial: func(c totalCase) bool { return len(c.Input) > 8 },
-		Quick:      25000, Thorough: 300000, Journal: true,
+		Quick:      20000, Thorough: 200000, Journal: true,
 	})
 }
 
@@ -294,7 +294,7 @@ func TestDuplicatesJSON(t *testing.T) {
 		Name: "duplicates-json",
 		Rule: "valid JSON document for a linked message type; at a drawn plain-message node (top level, singular/list/map/Any-embedded) the operator adds a second non-null member for a singular field (spellings: JSON name, proto name, [extension]; all combinations) or a second non-null member of a oneof; oracle: Unmarshal of the document with the extra member fails (the document without it is decoded too, to show the rejection is due to the operator). non-trivial = injected below the top level and base document accepted",
 		Draw: drawDup("json"), Check: checkDup, Classes: dupClasses, NonTrivial: dupNonTrivial,
-		Quick: 20000, Thorough: 250000,
+		Quick: 15000, Thorough: 150000,
 	})
 }
 
@@ -303,7 +303,7 @@ func TestDuplicatesText(t *testing.T) {
 		Name: "duplicates-text",
 		Rule: "valid text document; at a drawn message node the operator adds a second occurrence of a singular field (field name, group type name / lower-case name, [extension]) or a second member of a oneof; oracle: Unmarshal fails. non-trivial = injected below the top level and base document accepted",
 		Draw: drawDup("text"), Check: checkDup, Classes: dupClasses, NonTrivial: dupNonTrivial,
-		Quick: 20000, Thorough: 250000,
+		Quick: 15000, Thorough: 150000,
 	})
 }
 
@@ -693,7 +693,7 @@ func TestRecursionLimitJSON(t *testing.T) {
 		Rule: "RecursionLimit in 1..30, nesting depth aimed at limit-1 / limit / limit+1 / 10*limit; chains: singular message fields of linked types (exact), mixed singular/list/map steps, unknown member values under DiscardUnknown behind a known prefix (objects/arrays/alternating), Struct/ListValue/Value nests, Any-in-Any; oracle: depth by the most lenient reading > limit => error; depth by the strictest reading <= limit => accepted (documents are otherwise valid). non-trivial = a verdict applies (the two readings agree)",
 		Draw: drawDepth("json"), Check: checkDepth, Classes: depthClasses,
 		NonTrivial: func(c depthCase) bool { return c.DMin > c.Limit || c.DMax <= c.Limit },
-		Quick:      12000, Thorough: 120000,
+		Quick:      10000, Thorough: 80000,
 	})
 }
 
@@ -703,7 +703,7 @@ func TestRecursionLimitText(t *testing.T) {
 		Rule: "as recursion-limit-json for prototext: chains of {} / <> / :{ / list-syntax / map-entry steps, unknown fields under DiscardUnknown (names, field numbers, list syntax) and reserved-name fields behind a known prefix, expanded Any in Any; the catalogued defect (skipped values ignore the limit) is excluded only when the known prefix itself is within the limit",
 		Draw: drawDepth("text"), Check: checkDepth, Classes: depthClasses,
 		NonTrivial: func(c depthCase) bool { return c.DMin > c.Limit || c.DMax <= c.Limit },
-		Quick:      12000, Thorough: 120000,
+		Quick:      10000, Thorough: 80000,
 	})
 }
 
